@@ -306,6 +306,9 @@ func buildFile(f *ir.File, name string, dep bool) *descpb.FileDescriptorProto {
 	}
 	if f.GoPackage != "" {
 		fd.Options.GoPackage = proto.String(f.GoPackage)
+		if dep && f.DepGoPackage != "" {
+			fd.Options.GoPackage = proto.String(f.DepGoPackage)
+		}
 	}
 	mustSet := func(ext *proto.ExtensionDesc, v bool) {
 		if err := proto.SetExtension(fd.Options, ext, proto.Bool(v)); err != nil {
